@@ -164,6 +164,17 @@ def run(repo: str, tpl: str, out_dir: str, cfgs: List[str] = (), canary=False, s
                 label = label_for(lu, fail_span["line_start"], fail_span["line_end"])
                 if label and owner is not None and lu.name != owner.name:
                     label = "call:%s.%s" % (lu.name, label)
+        if label is None and fail_span is not None:
+            # clause labels of hand-written declarations (e.g. the Parser trait contract)
+            try:
+                gl_lines = open(gen_path, encoding="utf-8").read().split("\n")
+                for ln in range(fail_span["line_start"], fail_span["line_end"] + 1):
+                    mm = re.search(r"//\s*#([A-Za-z0-9_.\-]+)", gl_lines[ln - 1])
+                    if mm:
+                        label = mm.group(1)
+                        break
+            except Exception:
+                pass
         if label is None:
             label = re.sub(r"[^a-z0-9]+", "_", msg.lower()).strip("_")[:40]
             if fail_span is not None and fail_span.get("text"):
